@@ -139,6 +139,8 @@ FILE* fopen_inode(std::shared_ptr<Inode> ino, const char* mode, int* fd_out = nu
 
 // ---- urandom device
 void set_urandom(int mode, uint64_t seed);
+// Process-wide: the next open("/dev/urandom") is handed descriptor 0 (a process started without stdin).
+void urandom_open_returns_fd0(bool enable);
 uint8_t urandom_byte(int mode, uint64_t seed, uint64_t pos);
 uint64_t urandom_consumed();
 // Scripted device behaviour for successive reads (used by sim-rand so that two passes see the same
